@@ -945,6 +945,7 @@ def untake(x, idx, vs):
             idx = idx.astype("int64")
 
     def mut_add(A):
+        A = onp.asarray(A)  # a 0-d accumulator may have decayed to an (immutable) NumPy scalar
         onp.add.at(A, idx, x)
         return A
 
